@@ -41,12 +41,13 @@ func c07Peer(i int) peer.ID { return peer.ID(verifsim.NewPool("peer", 64).IDs[i%
 var c07Addr = ma.StringCast("/ip4/10.1.2.3/tcp/4001")
 
 type pmOp struct {
-	Op   string `json:"op"` // add get advance restart closelate cancelget plant
-	Key  int    `json:"key"`
-	Peer int    `json:"peer"`
-	Addr bool   `json:"addr,omitempty"`
-	DurS int    `json:"dur_s,omitempty"`
-	Kind string `json:"kind,omitempty"` // plant: badtime | badpeer
+	Op      string `json:"op"` // add get advance restart closelate cancelget plant
+	Key     int    `json:"key"`
+	Peer    int    `json:"peer"`
+	Addr    bool   `json:"addr,omitempty"`
+	DurS    int    `json:"dur_s,omitempty"`
+	Kind    string `json:"kind,omitempty"`     // plant: badtime | badpeer
+	FailPut bool   `json:"fail_put,omitempty"` // add: the datastore refuses the write (the add returns an error and does not count as an addition)
 }
 
 type pmSc struct {
@@ -76,7 +77,7 @@ func idsOf(infos []peer.AddrInfo) ([]string, bool) {
 }
 
 func runPM(t *testing.T, s pmSc) (res verifsim.Result) {
-	afterEvict, afterRestart, expiryCross := 0, 0, 0
+	afterEvict, afterRestart, expiryCross, failedAdds, failedReAdds := 0, 0, 0, 0, 0
 	out := verifsim.Bubble(t, func() {
 		ctx := context.Background()
 		d := verifsim.NewJournalDS("providers")
@@ -98,7 +99,8 @@ func runPM(t *testing.T, s pmSc) (res verifsim.Result) {
 		open()
 		defer func() { pm.Close() }()
 		model := map[kp]time.Time{}
-		touched := map[string]bool{} // keys read since last restart (may be cached)
+		attempt := map[kp]time.Time{} // additions whose write the datastore refused
+		touched := map[string]bool{}  // keys read since last restart (may be cached)
 		keysSinceRead := map[string]int{}
 		restartedSince := map[string]bool{}
 		for i, op := range s.Ops {
@@ -110,6 +112,23 @@ func runPM(t *testing.T, s pmSc) (res verifsim.Result) {
 				ai := peer.AddrInfo{ID: p}
 				if op.Addr {
 					ai.Addrs = []ma.Multiaddr{c07Addr}
+				}
+				if op.FailPut {
+					// the write is refused: the call must say so; the refused addition is no addition (earlier ones keep counting),
+					// though the provider may be served on the strength of it while its key stays cached
+					d.FailCall = func(c verifsim.Call) bool { return c.Op == "put" || c.Op == "batch-put" || c.Op == "commit" }
+					err := pm.AddProvider(ctx, key, ai)
+					d.FailCall = nil
+					if err == nil {
+						res.Fail("add/error", "C07/add/refused-write-acknowledged", "%s: the datastore refused the write, AddProvider returned no error", step)
+						return
+					}
+					attempt[kp{string(key), p}] = time.Now()
+					failedAdds++
+					if _, ok := model[kp{string(key), p}]; ok {
+						failedReAdds++
+					}
+					continue
 				}
 				if err := pm.AddProvider(ctx, key, ai); err != nil {
 					res.Fail("add/error", "C07/add/error", "%s: %v", step, err)
@@ -171,6 +190,9 @@ func runPM(t *testing.T, s pmSc) (res verifsim.Result) {
 					delete(gotSet, m)
 				}
 				for extra := range gotSet {
+					if at, ok := attempt[kp{string(key), peer.ID(extra)}]; ok && now.Sub(at) <= c07Validity {
+						continue // (served from the cache on the strength of a refused addition: tolerated)
+					}
 					_, ever := model[kp{string(key), peer.ID(extra)}]
 					if ever {
 						res.Fail("get/no-expired", "C07/get/expired-served", "%s: provider %x… served after its validity elapsed", step, extra[2:6])
@@ -258,6 +280,12 @@ func runPM(t *testing.T, s pmSc) (res verifsim.Result) {
 	if expiryCross > 0 {
 		res.Class("expiry-crossing")
 	}
+	if failedAdds > 0 {
+		res.Class("addition-refused-by-the-datastore")
+	}
+	if failedReAdds > 0 {
+		res.Class("re-addition-refused-by-the-datastore")
+	}
 	if s.GCS > 0 {
 		res.Class("gc-enabled")
 	}
@@ -285,7 +313,7 @@ func c07HistoryCheck() verifsim.Check[pmSc] {
 				}
 				switch rapid.IntRange(0, 15).Draw(t, "kind") {
 				case 0, 1, 2, 3, 4:
-					return pmOp{Op: "add", Key: key, Peer: p, Addr: rapid.Bool().Draw(t, "addr")}
+					return pmOp{Op: "add", Key: key, Peer: p, Addr: rapid.Bool().Draw(t, "addr"), FailPut: verifsim.Chance(t, "failPut", 12)}
 				case 5, 6, 7, 8, 9:
 					return pmOp{Op: "get", Key: key}
 				case 10, 11:
